@@ -86,13 +86,21 @@ package syntax
 //@   ensures (result == -1 || result == -10 || result >= 0) && result <= len(seg.Value) && result <= len(s1.Value)
 //@   ensures s1.Value != seg.Value && s1.Type != seg.Type ==> result == 0
 //
+// a token produced by splitString has no '{' after its first byte
+//@ pred oneBrace(s string) = len(s) <= 1 || !contains(s[1:], "{")
 //@ fn longestPrefix
 //@   nopanic
 //@   ensures [C05] range: (result == -10 || 0 <= result) && result <= len(s1) && result <= len(s2)
 //@   ensures [C02] common: result > 0 ==> s1[:result] == s2[:result]
+// a token has its only '{' at index 0 (splitString); the common prefix then never ends inside the braces of either
+// string: if it is not empty and the token starts with '{', the closing brace is part of it
+//@   ensures [C03,C05] outside-braces: oneBrace(s1) && 0 < result && result < len(s1) && result < len(s2) && s1[0] == '{' ==>
+//@        (exists m int :: 0 < m && m < result && s1[m] == '}')
 //@   inv 1 bounds: 0 <= i && i <= l && l <= len(s1) && l <= len(s2)
 //@   inv 1 idx: (startIndex == -10 || (0 <= startIndex && startIndex < i)) && (endIndex == -10 || (0 <= endIndex && endIndex < i))
 //@   inv 1 [C02] same: forall k int :: 0 <= k && k < i ==> s1[k] == s2[k]
+//@   inv 1 [C03,C05] braces: oneBrace(s1) ==> (startIndex == -10 || startIndex == 0) && (startIndex == 0 <==> (i > 0 && s1[0] == '{')) &&
+//@        (endIndex == -10 || (0 <= endIndex && endIndex < i && s1[endIndex] == '}')) && ((state == '}') <==> (startIndex == -10 || endIndex > startIndex))
 //
 //@ fn Segment.Valid
 //@   requires segOK(seg)
